@@ -86,6 +86,10 @@ pub enum Case {
     Batch { rs: Vec<Recipe>, op: BatchOp },
     Conv { r: Recipe, op: ConvOp },
     Elligator { bk: Bk, r1: Num, r2: Option<Num> },
+    /// the (de)serialisation modes that are `unimplemented!()` on the pinned tree (uncompressed,
+    /// unchecked, containers, which read their items with Validate::No): a panic saying "not
+    /// implemented" is tolerated, but whatever such a mode *returns* must be a valid element
+    DeserModes { bytes: HexBytes },
 }
 
 /// RNG that replays a byte prefix and then continues with ChaCha20
@@ -324,6 +328,62 @@ fn sampler_case(affine: bool, uniform_rand: bool, prefix: &[u8], seed: u64, ctx:
     Ok(())
 }
 
+fn deser_modes_case(bytes: &[u8], ctx: &mut Ctx) -> Result<(), Failure> {
+    use ark_ec::AffineRepr;
+    use ark_serialize::{CanonicalDeserialize, Compress, Validate};
+    use std::panic::{catch_unwind, AssertUnwindSafe};
+    let mut tried = |name: &str, f: &dyn Fn() -> Result<Vec<AE>, ark_serialize::SerializationError>, ctx: &mut Ctx| -> Result<(), Failure> {
+        ctx.sub_eval();
+        match catch_unwind(AssertUnwindSafe(f)) {
+            Err(p) => {
+                let msg = p.downcast_ref::<&str>().map(|s| s.to_string()).or_else(|| p.downcast_ref::<String>().cloned()).unwrap_or_default();
+                if msg.contains("not implemented") {
+                    ctx.class(&format!("deser-mode:{name}:unimplemented(tolerated)"));
+                    Ok(())
+                } else {
+                    ctx.report(format!("C06|deser-mode:{name}|panic"), format!("{name} panicked: {msg}"))
+                }
+            }
+            Ok(Err(_)) => {
+                ctx.class(&format!("deser-mode:{name}:err"));
+                Ok(())
+            }
+            Ok(Ok(es)) => {
+                ctx.class(&format!("deser-mode:{name}:ok"));
+                for e in es {
+                    valid_elem::<Ark>(&format!("deser-mode:{name}"), &e, ctx)?;
+                }
+                Ok(())
+            }
+        }
+    };
+    let b = bytes.to_vec();
+    for (cn, c) in [("compressed", Compress::Yes), ("uncompressed", Compress::No)] {
+        for (vn, v) in [("validated", Validate::Yes), ("unchecked", Validate::No)] {
+            if cn == "compressed" && vn == "validated" {
+                continue; // the ordinary entry point, covered by the Decode cases and by C02
+            }
+            let bb = b.clone();
+            tried(&format!("Element:{cn}:{vn}"), &move || AE::deserialize_with_mode(&bb[..], c, v).map(|e| vec![e]), ctx)?;
+            let bb = b.clone();
+            tried(&format!("AffinePoint:{cn}:{vn}"), &move || AA::deserialize_with_mode(&bb[..], c, v).map(|a| vec![a.into_group()]), ctx)?;
+        }
+    }
+    // containers: length prefix (u64 LE) followed by the items
+    let n = (bytes.len() / 32).min(3);
+    let mut framed = (n as u64).to_le_bytes().to_vec();
+    framed.extend_from_slice(&bytes[..32 * n]);
+    let fb = framed.clone();
+    tried("Vec<Element>:compressed", &move || Vec::<AE>::deserialize_compressed(&fb[..]), ctx)?;
+    let fb = framed.clone();
+    tried("Vec<AffinePoint>:compressed", &move || Vec::<AA>::deserialize_compressed(&fb[..]).map(|v| v.into_iter().map(|a| a.into_group()).collect()), ctx)?;
+    if bytes.len() >= 64 {
+        let bb = b.clone();
+        tried("[Element;2]:compressed", &move || <[AE; 2]>::deserialize_compressed(&bb[..]).map(|a| a.to_vec()), ctx)?;
+    }
+    Ok(())
+}
+
 fn from_random_bytes_case(bytes: &[u8], ctx: &mut Ctx) -> Result<(), Failure> {
     use ark_ec::AffineRepr;
     ctx.class("from_random_bytes:calls");
@@ -398,6 +458,18 @@ impl Property for C06 {
             3 => (proptest::collection::vec(recipe::recipe_small(), 0..=6), any::<bool>()).prop_map(|(rs, w)| Case::Batch { rs, op: if w { BatchOp::NormalizeBatch } else { BatchOp::BatchConvertToMulBase } }),
             3 => (recipe::recipe(), any::<u16>()).prop_map(|(r, i)| Case::Conv { r, op: CONVS[pick(i, CONVS.len())] }),
             1 => (bk(), gen::fq_special(), proptest::option::of(gen::fq_special())).prop_map(|(bk, r1, r2)| Case::Elligator { bk, r1, r2 }),
+            // bytes for the rarely used modes: valid encodings, near misses, coordinates of curve points (in and out of the group)
+            2 => (proptest::collection::vec(prop_oneof![
+                    2 => bytes32_near().prop_map(|b| b.bytes.0),
+                    1 => (pt_src(), any::<bool>()).prop_map(|(s, shift)| {
+                        let c = &*CURVE;
+                        let i = Q.sqrt(&Q.neg(&N::from(1u32))).unwrap();
+                        let p = if shift { c.add(&s.point(), &Pt { x: i, y: N::from(0u32) }) } else { s.point() };
+                        let mut v = crate::refmodel::le32(&p.x).to_vec();
+                        v.extend_from_slice(&crate::refmodel::le32(&p.y));
+                        v
+                    }),
+                ], 1..=3)).prop_map(|parts| Case::DeserModes { bytes: HexBytes(parts.concat()) }),
         ]
         .boxed()
     }
@@ -432,6 +504,26 @@ impl Property for C06 {
                 v.push(Case::FromRandomBytes { family: "small-y".into(), bytes: HexBytes(b) });
             }
         }
+        {
+            let c = &*CURVE;
+            let i = Q.sqrt(&Q.neg(&N::from(1u32))).unwrap();
+            let mut pts = vec![Pt { x: i.clone(), y: N::from(0u32) }, c.identity(), c.t2(), crate::refmodel::GEN.clone()];
+            for k in 1u32..12 {
+                let p = PtSrc::SmallMul(k).point();
+                pts.push(c.add(&p, &Pt { x: i.clone(), y: N::from(0u32) }));
+                pts.push(p);
+            }
+            for p in pts {
+                let mut b = crate::refmodel::le32(&p.x).to_vec();
+                b.extend_from_slice(&crate::refmodel::le32(&p.y));
+                v.push(Case::DeserModes { bytes: HexBytes(b) });
+            }
+            for s in [0u32, 1, 2, 3, 4, 8] {
+                let mut b = crate::refmodel::le32(&N::from(s)).to_vec();
+                b.extend_from_slice(&crate::refmodel::le32(&N::from(8u32)));
+                v.push(Case::DeserModes { bytes: HexBytes(b) });
+            }
+        }
         for seed in 0..8u64 {
             for (a, u) in [(false, false), (false, true), (true, false), (true, true)] {
                 v.push(Case::Sampler { affine: a, uniform_rand: u, prefix: HexBytes(vec![]), seed });
@@ -464,6 +556,10 @@ impl Property for C06 {
             }
             Case::Batch { rs, op } => batch_case(rs, *op, ctx),
             Case::Conv { r, op } => conv_case(r, *op, ctx),
+            Case::DeserModes { bytes } => {
+                ctx.nontrivial();
+                deser_modes_case(&bytes.0, ctx)
+            }
             Case::Elligator { bk, r1, r2 } => {
                 if r1.0 >= Q.m || r2.as_ref().map(|r| r.0 >= Q.m).unwrap_or(false) {
                     ctx.excluded();
